@@ -8,11 +8,11 @@ BASE = "cd /repo && /venv/bin/python -m pytest -ra -q -p no:cacheprovider --time
 CHECKS = {
  "C10": ("HX", "model_checking",
          "explicit-state BFS over operation histories of a real Stewart platform (pickle snapshots, canonical state hashing, from-scratch replay) for subsets of the four validation switches, with coherence and every enabled constraint recomputed independently after every call",
-         "36-operation alphabet {IK to 12 in/out-of-workspace and edge targets (one crossing the deflection limit under a re-spin), FK x4 length vectors x both solvers, FK at an explicit base x2, reverse FK, move x2, spinCustom, spinCustom+validate, validate x2, inverseJacobian, staticForces, carryMassCalc, scripted randomPos} on 3 geometries (newSP at the origin, newSP on a rotated offset base, makeSP with thick plates; moves include a base tilted 69 degrees) x 6 (quick) / 16 (thorough) switch subsets, fresh and re-spun starts, depth 2 (quick) / 3 (thorough): every call returns, joints/lengths/relative transform coherent to 1e-9, valid => all enabled constraints hold, pure queries leave both plates unchanged, un-invert preserves leg lengths.",
+         "41-operation alphabet {IK to 12 in/out-of-workspace and edge targets (one crossing the deflection limit under a re-spin), FK x4 length vectors x both solvers, FK at an explicit base x2, reverse FK x4 length vectors, move x3, spinCustom, spinCustom+validate, validate x2, inverseJacobian, staticForces, carryMassCalc, inverseJacobian / staticForces at explicitly given poses of both plates, scripted randomPos} on 3 geometries (newSP at the origin, newSP on a rotated offset base, makeSP with thick plates; moves include a base tilted 69 degrees) x 6 (quick) / 16 (thorough) switch subsets, fresh and re-spun starts, depth 2 (quick) / 3 (thorough): every call returns, joints/lengths/relative transform coherent to 1e-9, valid => all enabled constraints hold, pure queries leave both plates unchanged, un-invert preserves leg lengths.",
          "Depth <= 3 (not the 25 of the quantifier text); FK answers and corrective actions are environment answers (checked, not predicted); FK accuracy itself is C09's. Allowance for rotation angles in (0,1e-6] (the exponential's cut-off).", "DESIGN 4/C10"),
  "C17": ("LX", "exploration",
          "bounded-exhaustive enumeration of all 47 @jit kernels x input lattices x 5 array layouts and of every public tm/Arm/SP entry point for every link/joint index, executed in three fresh processes (compiled, NUMBA_BOUNDSCHECK=1, interpreter) whose per-case digests are compared",
-         "27 932 (quick) / 72 763 (thorough) cases per mode: an IndexError or any exception in a checked mode where the compiled mode returned, or any value difference (1e-12; solver kernels 1e-9) between modes, is a violation; post-call contents of arguments and their parent arrays are part of the digest, so stray writes show up as value differences.",
+         "27 932 (quick) / 72 763 (thorough) cases per mode: an IndexError or any exception in a checked mode where the compiled mode returned, or any value difference (1e-12; solver kernels 1e-9) between modes, is a violation; post-call contents of arguments and their parent arrays are part of the digest, so stray writes show up as value differences.  A kernel without a hand-made input lattice is a reported coverage gap (NOTICE, exhaustive:false), not an error.",
          "Negative indices wrap legally in both checked modes; layouts the explicit signatures reject are counted, not failed; iterative solver entry points are value-compared only between the two compiled modes.", "DESIGN 4/C17"),
  "C02": ("LX", "exploration",
          "bounded-exhaustive differential enumeration: for each of the 47 shared functions the complete (quick: deterministically strided) product of argument palettes is run through the port and through the vendored reference library, results compared by shape and value",
@@ -20,19 +20,19 @@ CHECKS = {
          "float64 C-contiguous arguments only (layouts are C17's); cases where the reference itself returns non-finite values or sits on the 1e-6 cut-off tie are counted and skipped; quick tier thinned with strides coprime to all palette sizes (listed in the rule).", "DESIGN 4/C02"),
  "C09": ("LX", "exploration",
          "bounded-exhaustive enumeration over a platform-geometry family x bases x re-spins x the complete 3^6 relative-pose grid, against point-to-point distances computed from plate-fixed coordinates read once at the neutral pose; FK round trip on a fixed sub-lattice with a committed known-finding case list",
-         "IK lengths equal joint-to-joint distances (1e-9), rigid-motion invariance, re-spin clause (at neutral and non-neutral poses, twice in a row), FK of the lengths (both solver paths) recovers pose and lengths to 1e-3 of the neutral height for every in-workspace pose; histories 'FK, spinCustom, FK' and 'IK, IK' (the earlier result must survive); quick: 7 geometries at bases {identity, generic, seed-generic, 63-degree tilt}, thorough: all 432 + seed geometry.",
+         "IK lengths equal joint-to-joint distances (1e-9), rigid-motion invariance, re-spin clause (at neutral and non-neutral poses, twice in a row), FK of the lengths (both solver paths) recovers pose and lengths to 1e-3 of the neutral height for every in-workspace pose; histories 'FK, spinCustom, FK', 'IK, IK' (the earlier result must survive) and 'IK, move both pose objects in place, IK'; FK with the bottom plate given explicitly elsewhere (generic rigid motion / ceiling mount), differentially against FK from the platform's own base; quick: 7 geometries at bases {identity, generic, seed-generic, 63-degree tilt}, thorough: all 432 + seed geometry.",
          "FK failures are matched against known_findings/c09_fk_cases.txt (KF2: explicit case ids with a marginal band, one structural class for fsolve started from a zero rotation vector); any unlisted failure is a violation. Time caps are reported with exhaustive:false.", "DESIGN 4/C09"),
  "C11": ("LX", "exploration",
          "bounded-exhaustive enumeration over geometries x bases x the 3^6 pose grid x the complete twist/wrench bases, against Richardson differences of the IK lengths and independent statics",
-         "inverseJacobian columns equal Richardson central differences of leg lengths along spatial twists of the top plate (1e-6), static equilibrium, summed actuator wrenches, inverse statics, the body-frame pair, and the mass-carrying variant with plate and shaft weights at their centres of gravity, at identity, a generic, a seed-generic and a far base (cond(J^-1) 1e3..1e4 there), on every in-workspace pose with cond <= 1e4; the same Wrench object handed over twice, and the history 'statics, inverseJacobian, spinCustom, same poses, statics'.",
+         "inverseJacobian columns equal Richardson central differences of leg lengths along spatial twists of the top plate (1e-6), static equilibrium, summed actuator wrenches, inverse statics, the body-frame pair, and the mass-carrying variant with plate and shaft weights at their centres of gravity, at identity, a generic, a seed-generic and a far base (cond(J^-1) 1e3..1e4 there), on every in-workspace pose with cond <= 1e4; the same Wrench object handed over twice, and the history 'statics, inverseJacobian, spinCustom, same poses, statics', and a query at an explicitly given other pose followed by the argument-less queries.",
          "Finite geometry/pose lattice; conventions (moment-first wrenches, Ad^T frame change) are themselves verified by a dedicated part; linear maps decided on complete bases.", "DESIGN 4/C11"),
  "C16": ("CX", "model_checking",
          "stateless choice-sequence exploration (prefix replay, default answer 0, branching at every later environment question, deviation-bounded) of the real RRT* growth loop with the sampler and the random source scripted; tree invariants and an independent brute-force nearest-neighbour replay of the insertion order on every complete execution",
-         "All sample sequences over a 10-pose menu for iteration budgets 1-3 (quick) / 1-4 (thorough) with a draw horizon, deviation-bounded runs to budget 12, histories that grow the same planner again with a smaller budget and query again (also with the distance mode switched in between), and the default findPath path with random.uniform scripted per coordinate, crossed with 4 obstruction layouts x 2 distance modes x 3 neighbour limits: rootedness, acyclic parent links, cost bookkeeping, edge freedom, acceptance range, choice of parent, node count, returned path.",
+         "All sample sequences over a 10-pose menu for iteration budgets 1-3 (quick) / 1-4 (thorough) with a draw horizon, deviation-bounded runs to budget 12, histories that grow the same planner again with a smaller budget and query again (also with the distance mode switched in between), configurations whose caller-supplied collision detector is not the planner's own, and the default findPath path with random.uniform scripted per coordinate, crossed with 4 obstruction layouts x 2 distance modes x 3 neighbour limits: rootedness, acyclic parent links, cost bookkeeping, edge freedom, acceptance range, choice of parent, node count, returned path.",
          "Budgets <= 4 exhaustively (<= 12 near the default answer); executions that exhaust the draw horizon are counted, not judged; the supplied collision detector itself is C15's subject. A time cap (reported, exhaustive:false) bounds the run on a loaded machine.", "DESIGN 4/C16, 3.3"),
  "C08": ("LX", "exploration",
          "bounded-exhaustive enumeration: all revolute chains of 1..3 joints over a 6-joint palette x link-frame and inertia schemes x joint-state lattice, windows of 4..7 joints, and arms through the Arm-level API, against an independent product-of-exponentials dynamics oracle",
-         "All 6^n joint sequences for n <= 3 x 4 link-frame schemes x 3 inertia schemes x {0,0.3,-1.2,pi/2}^n states, cyclic windows for n = 4..7, three/four arms: M symmetric positive definite and equal to sum J^T G J, gravity = gradient of potential, passivity and the Lagrange form of the velocity-product term (Richardson differences), term-by-term torque decomposition, forward/inverse round trips, energy drift under RK4 with step refinement, agreement of every Arm-level implementation with the port, a sequence that overwrites one set of argument buffers in place across states, the history 'query everything, replace the inertias through the public setter, query again', and a byte comparison of every argument after every call.",
+         "All 6^n joint sequences for n <= 3 x 4 link-frame schemes x 3 inertia schemes x {0,0.3,-1.2,pi/2}^n states, cyclic windows for n = 4..7, three/four arms: M symmetric positive definite and equal to sum J^T G J, gravity = gradient of potential, passivity and the Lagrange form of the velocity-product term (Richardson differences), term-by-term torque decomposition, forward/inverse round trips, energy drift under RK4 with step refinement, agreement of every Arm-level implementation with the port, a sequence that overwrites one set of argument buffers in place across states, the history 'query everything, replace the inertias through the public setter, query again', (second stage: link frames replaced through setOrigins), a byte comparison of every argument after every call, tiny steps (1e-6, 2e-7) in the reuse sequence, and rates / wrenches whose components cancel in a plain sum.",
          "Finite lattices (quick tier thinned deterministically as stated in the rule); revolute joints; mass pattern per inertia scheme fixed. Oracle identities validated against the vendored reference in the self-tests.", "DESIGN 4/C08"),
  "C13": ("LX", "exploration",
          "bounded-exhaustive enumeration over generated programs: the complete product of per-joint URDF variants for 1 and 2 moving joints, scheduled families for 3..8 joints with every fixed-joint placement pattern, loaded by the real loader and compared with an independent XML->kinematics interpreter",
@@ -40,31 +40,31 @@ CHECKS = {
          "Strictly serial trees, revolute/continuous/fixed joints only (the property's quantifier); origin and limit values rotate through fixed palettes rather than entering the product. KF1 matched only when the deviation shows the logarithm's signature.", "DESIGN 4/C13"),
  "C14": ("HX", "exploration",
          "exhaustive enumeration of length-3 histories (build operands -> call -> one in-place mutation of the result) executed from scratch over a 306-entry table of operators/accessors/helpers x operand palettes x every mutation site, with byte/identity/extent fingerprints",
-         "Every public operator, accessor, copy constructor and in-scope helper of tm/Screw/Wrench/fsr, all 47 shared Modern Robotics functions plus extras, the Arm/SP constructors and loaders, and all default-argument objects (treated as hidden operands) are exercised with 2-3 operand palettes each; operands must be byte-identical afterwards, results must not share memory with operands, and no mutation of a result may reach an operand or a default; for operators, copies and accessors a result that IS an operand is a violation.",
+         "Every public operator, accessor, copy constructor and in-scope helper of tm/Screw/Wrench/fsr, all 47 shared Modern Robotics functions plus extras, the Arm/SP constructors and loaders, and all default-argument objects (treated as hidden operands) are exercised with 2-3 operand palettes each; operands must be byte-identical afterwards, results must not share memory with operands, and no mutation of a result may reach an operand or a default; for operators, copies and accessors a result that IS an operand is a violation; tm / fsr entries also with operands whose rotation vector is wound beyond a full turn.",
          "Histories of length 3 only (one call, one mutation); snapshots are never used because they would sever the sharing under test. Exclusions exactly as the property lists them.", "DESIGN 4/C14"),
  "C19": ("HX", "model_checking",
          "explicit-state BFS over router operation histories on the real Comms hub with in-memory endpoint doubles and a scripted fake socket, against a bag-valued reference model; plus TLC enumeration of a TLA+ model of the hub whose every edge is replayed against the implementation",
-         "Direct exploration: all histories to depth 4 (quick) / 6 (thorough) over a 67-operation alphabet on 2 endpoints (+UDP endpoint on a fake socket, 3-endpoint hub in thorough) with the explorer choosing message/no-data at every receive position; handlers are registered both as callable objects and as bound methods. Conformance: the complete TLC state graph of tla/Router.tla (quick 8 449 states / 278 817 edges; thorough 114 689 / 3.2 M) is dumped and every edge replayed on the real hub.",
+         "Direct exploration: all histories to depth 4 (quick) / 6 (thorough) over a 67-operation alphabet on 2 endpoints (+UDP endpoint on a fake socket, 3-endpoint hub in thorough) with the explorer choosing message/no-data at every receive position; handlers are registered both as callable objects and as bound methods; one source reports the empty text.  The hub's rule set is OBSERVED (probe receive on every endpoint and a probe spin on a pickled copy), never read from its tables; the scripted socket has a descriptor that is readable when a datagram is pending. Conformance: the complete TLC state graph of tla/Router.tla (quick 8 449 states / 278 817 edges; thorough 114 689 / 3.2 M) is dumped and every edge replayed on the real hub.",
          "Bounded depth and hub size (<= 3 endpoints, 2 sinks, 1 source); sockets are scripted doubles; delivery order within a bag is not judged. Without tlc on PATH the check falls back to the direct exploration and says so.", "DESIGN 4/C19, 3.4"),
  "C07": ("LX", "exploration",
          "bounded-exhaustive enumeration of goal x start x tolerance-setting x solver-path lattices on arms in four structural states, plus complete enumeration of restart-vector sequences (scripted random source); errors recomputed independently",
-         "Per arm and state: goals from in-limit joint vectors (generic, 0.15 rad from a limit, on a limit), starts (exact, +-0.02 rad on every joint, far, zeros, current, a full turn outside the limits), three tolerance settings with position != orientation tolerance, both solver paths; tolerance-boundary goals (the only inputs that expose a tolerance swap); the same boundary goals through one scripted restart limited to its entry test; unreachable goals; all 9 restart-vector sequences of length 2 over a 3-vector menu; one generated chain whose joint ranges exclude 0. Success => recomputed errors within the matching tolerances, inside limits, state = solution; failure => coherent state; local convergence on the stated sub-domain.",
+         "Per arm and state: goals from in-limit joint vectors (generic, 0.15 rad from a limit, on a limit), starts (exact, +-0.02 rad on every joint, far, zeros, current, a full turn outside the limits), three tolerance settings with position != orientation tolerance, both solver paths; tolerance-boundary goals (the only inputs that expose a tolerance swap); the same boundary goals through one scripted restart limited to its entry test; unreachable goals; all 9 restart-vector sequences of length 2 over a 3-vector menu; one generated chain whose joint ranges exclude 0; the boundary restart on both solver paths; a failed solve followed by an ordinary one on the same arm. Success => recomputed errors within the matching tolerances, inside limits, state = solution; failure => coherent state; local convergence on the stated sub-domain.",
          "Finite lattices; the solver's joint vectors are environment answers; restarts fully scripted. Free solver on chains with prismatic joints excluded for unreachable goals (joint values leave the property's [-2pi,2pi] range).", "DESIGN 4/C07"),
  "C12": ("LX", "exploration",
          "bounded-exhaustive enumeration: all ordered frame triples x complete 6-vector basis x {Screw, Wrench} x every operand form on both sides of every operator, against independent adjoint formulas",
-         "729 (quick) / 2744 (thorough) frame triples (palette includes near-duplicate frames) x basis+generic vectors for the change-of-frame group action, pairing invariance, point-force moments, cross-frame sums/differences, and the vector-space laws over 19 operand forms (Python/NumPy scalars, flat and column arrays of float and int dtype, objects) reaching every isinstance branch and fall-through of the overloads; part 'shared': two objects on one frame object, the target frame object moved in place between the two changes.",
+         "729 (quick) / 2744 (thorough) frame triples (palette includes near-duplicate frames) x basis+generic vectors for the change-of-frame group action, pairing invariance, point-force moments, cross-frame sums/differences, and the vector-space laws over 19 operand forms (Python/NumPy scalars, flat and column arrays of float and int dtype, objects) reaching every isinstance branch and fall-through of the overloads; part 'shared': two objects on one frame object, the target frame object moved in place between the two changes; the payload edited (element assignment / in-place write) between two changes of frame.",
          "Finite frame palette kept >= 1e-3 away from half-turn relative rotations (KF1 territory) and from the 1e-6 cut-off; linear maps decided on complete bases.", "DESIGN 4/C12"),
  "C18": ("LX", "exploration",
          "bounded-exhaustive enumeration: all ordered pose pairs/triples of a palette off the origin, all step sizes/counts, every sphere point count, an angle lattice in four operand forms, against independent NumPy relations",
-         "11 poses (|p| up to 10, angles up to pi-1e-3, none through the world origin) -> all pairs/triples for mirror, midpoints, lookAt, planes, metric axioms, gap closing, straight paths, twists; every point count 1..2000 (thorough) for both sphere samplers; 318 angles as scalars/arrays/6-vectors/tm for angle wrapping; chain and numerical Jacobians against analytic ones; frame objects re-posed in place between two uses, pose pairs differing by a pure translation, pairs 4e-7 apart.",
+         "11 poses (|p| up to 10, angles up to pi-1e-3, none through the world origin) -> all pairs/triples for mirror, midpoints, lookAt, planes, metric axioms, gap closing, straight paths, twists; every point count 1..2000 (thorough) for both sphere samplers; 318 angles as scalars/arrays/6-vectors/tm for angle wrapping; chain and numerical Jacobians against analytic ones; frame objects re-posed in place between two uses, pose pairs differing by a pure translation, pairs 4e-7 apart; every IKPath count 2..200 on three pairs; the 15 deprecated entry points against the function their notice names; sphere samplers after the caller scaled a result in place.",
          "Finite palettes; closeArcGap direction claimed only for un-rotated origins (the repository's own test pins the other behaviour); helpers outside the statement's list are not checked.", "DESIGN 4/C18"),
  "C06": ("LX", "exploration",
          "bounded-exhaustive enumeration: arms x all structural histories (move / tool change / restore, length <= 2) x joint-vector palette x complete rate and wrench bases; Jacobians compared with Richardson differences of the library's FK and with an independent product-of-exponentials reference",
-         "At each of 43 structurally distinct states per arm (histories of length <= 2 over {move x2, tool change x3 incl. a turn-only one, restore}) and 4-5 joint vectors: space Jacobian = derivative of FK (Richardson, steps 1e-4/2e-4, 1e-6 relative), body / link (every index) / tool-aligned / numerical variants after the change of frame, velocity = J qd, statics = J^T F with power balance on the complete bases, inverse statics where sigma_min >= 0.05, link-weight moments on arms with inertial data; plus every ordered pair of queries on ONE arm object with shared argument objects (query-after-query interference, argument mutation), also with the shared joint vector advanced in place between the two queries; link weights re-evaluated with one link made massless.",
+         "At each of 43 structurally distinct states per arm (histories of length <= 2 over {move x2, tool change x3 incl. a turn-only one, restore}) and 4-5 joint vectors: space Jacobian = derivative of FK (Richardson, steps 1e-4/2e-4, 1e-6 relative), body / link (every index) / tool-aligned / numerical variants after the change of frame, velocity = J qd, statics = J^T F with power balance on the complete bases, inverse statics where sigma_min >= 0.05, link-weight moments on arms with inertial data; plus every ordered pair of queries on ONE arm object with shared argument objects (query-after-query interference, argument mutation), also with the shared joint vector advanced in place between the two queries; link weights re-evaluated with one link made massless; inverse statics also a few 1e-5 rad beside singular configurations located with the reference Jacobian; 'query, structural change, query again' on one object.",
          "Finite palettes of joint vectors and histories of length <= 2; linear maps are decided on complete bases. Link masses/centres are taken from the loaded arm as data.", "DESIGN 4/C06"),
  "C05": ("HX", "model_checking",
          "explicit-state BFS over operation histories of real Arm objects paired with a product-of-exponentials reference model; solver answers are environment answers; from-scratch replay of every state's history",
-         "Per arm (6 quick / 14 thorough: 6R test arm at identity and at a base, bundled URDF arms, generated 1-7 joint chains incl. prismatic) every history of length <= 2 (quick) / <= 4 (thorough) over a 22-operation alphabet {FK x7, IK x6, move x3, setArbitraryHome x3, restoreOriginalEE, randomPos x2} is executed (quick depth 2, thorough depth 4); after every transition base pose, reported tool pose, joint state, joint frames and defaulted-argument queries are compared with base*PoE*home.",
+         "Per arm (6 quick / 14 thorough: 6R test arm at identity and at a base, bundled URDF arms, generated 1-7 joint chains incl. prismatic) every history of length <= 2 (quick) / <= 4 (thorough) over a 24-operation alphabet {FK x7, IK x6, move x3, a move by micrometres, setArbitraryHome x3, restoreOriginalEE, randomPos x2, the pure queries asked on the live object} is executed (quick depth 2, thorough depth 4); after every transition base pose, reported tool pose, joint state, joint frames and defaulted-argument queries are compared with base*PoE*home.",
          "Depth <= 4 (not the 10 of the quantifier text); finite theta palette; reference built from copies of the construction data (URDF arms from the loaded arm, loader is C13's). KF1 (re-basing of joint frames with near-pi rotations) and KF3 (URDF 'last joint' frame after tool change) are matched narrowly as known findings.", "DESIGN 4/C05"),
  "C20": ("LX", "exploration",
          "bounded-exhaustive enumeration of all array shapes (extent 0..4, rank 0..5) x dtypes x fills x decimals x titles and of object kinds, with numeric fields parsed back from the rendered text",
@@ -72,7 +72,7 @@ CHECKS = {
          "Finite shape/value lattice; content of non-array renderings only checked for totality and print agreement, as the property states.", "DESIGN 4/C20"),
  "C01": ("LX", "exploration",
          "bounded-exhaustive enumeration: complete Cartesian products of branch-boundary palettes (axes x angles x translations, all pose pairs) through the real kernels against an independent NumPy oracle",
-         "Every clause of the statement is evaluated on the complete product of 15 axes x 33 angles (x 6 translations) placed on both sides of the 1e-6 cut-off, the acos clamps and the half-turn sub-branches, plus all ordered pairs of a ~360-pose palette for the homomorphism laws.",
+         "Every clause of the statement is evaluated on the complete product of 15 axes x 33 angles (x 6 translations) placed on both sides of the 1e-6 cut-off, the acos clamps and the half-turn sub-branches, plus all ordered pairs of a ~360-pose palette for the homomorphism laws; axes tilted 1e-5..1e-4 rad off the coordinate axes; every half turn also as the exactly symmetric matrix 2aa^T-I with translations.",
          "Finite palettes; values between lattice points are not covered. True exp/log from oracles/se3.py (self-tested against scipy expm). KF1 (log near pi) matched only when the port still equals the vendored reference.", "DESIGN 4/C01"),
  "C04": ("LX", "exploration",
          "bounded-exhaustive enumeration: every palette pose in every constructor form, all ordered triples of a pose sub-palette, against independent matrices",
@@ -80,11 +80,11 @@ CHECKS = {
          "Finite palettes; rpy read as Rx*Ry*Rz as the property says; KF1 band (composed rotation within 3e-5 of pi) matched as known finding.", "DESIGN 4/C04"),
  "C15": ("LX", "exploration",
          "exhaustive enumeration of all lattice segment/box pairs through the real obstruction test against an integer-exact slab-clipping decision procedure",
-         "All ordered pairs of lattice end points x all integer boxes (quick 3.4 M pairs on {-2..2}^3 x {-1..1}^3; thorough 397 M on {-3..3}^3 x {-2..2}^3), an affine non-dyadic image of the lattice where the exact answer is robust, all two-box sets over a sub-palette, and planner-reuse histories (register X, query, change the set to Y in four public ways, query).",
+         "All ordered pairs of lattice end points x all integer boxes (quick 3.4 M pairs on {-2..2}^3 x {-1..1}^3; thorough 397 M on {-3..3}^3 x {-2..2}^3), 26 boxes with a side of length 3 in the quick tier, every fourth segment also against the boxes registered by the other pair of opposite corners, an affine non-dyadic image of the lattice where the exact answer is robust, all two-box sets over a sub-palette, and planner-reuse histories (register X, query, change the set to Y in four public ways, query).",
          "Exactness argument: every intermediate is a dyadic rational on the integer lattice. Oracle validated against fractions.Fraction in the self-tests. Float inputs off the (affine) lattice are not covered.", "DESIGN 4/C15"),
  "C03": ("HX", "model_checking",
          "explicit-state BFS over operation histories of the real tm object, depth-bounded, with from-scratch replay of every state's history",
-         "Every history of length <= 2 (quick) / <= 3 (thorough) over a ~880-transition alphabet of constructors, setters, slice/element assignments (incl. from-the-end indices and open-ended slices), quaternion updates and operators is executed on the real class (incl. 'construct from an array, then the caller refills that array' and 'construct twice from one array, write to one twin'); the coherence invariant is evaluated in every reached state and on every returned object.",
+         "Every history of length <= 2 (quick) / <= 3 (thorough) over a ~880-transition alphabet of constructors, setters, slice/element assignments (incl. from-the-end indices and open-ended slices), quaternion updates and operators is executed on the real class (incl. 'construct from an array, then the caller refills that array', 'construct twice from one array, write to one twin', 'derive an object, write through one of the two', open-ended and strided slices, exact half turns through the matrix side, 'matrix-side write then the old vector written back'; angles 2e-5 and 3e-4 added to the property's palette); the coherence invariant is evaluated in every reached state and on every returned object.",
          "Bounded depth and finite value palette (the one the property names); states merged at 1e-9; independent Rodrigues oracle; KF1 band matched as a known finding.", "DESIGN 4/C03"),
 }
 ALL = ["C%02d" % i for i in range(1, 21)]
